@@ -94,13 +94,13 @@ func c47(r *core.Run) {
 	r.Floor("R2.rejection", 4)
 
 	// R3 row coherence of the type switches
+	// every function of stdlib/random.go is examined, so a type switch moved into a helper is still found
 	seen := 0
-	for _, name := range []string{"RevertibleRandom", "getUint64RandomNumber", "getBigRandomNumber"} {
-		fd, _ := w.Decl(w.FuncObj("stdlib", "", name))
-		if fd == nil {
-			r.Undecided("R3.rows", "stdlib."+name, "does not resolve")
+	for _, fd := range w.FuncDeclsIn("stdlib") {
+		if w.File(fd.Pos()) != "stdlib/random.go" || fd.Body == nil {
 			continue
 		}
+		name := fd.Name.Name
 		seen += len(switchRows(r, "R3.rows", "stdlib."+name, fd, sp.TypesInfo, name != "RevertibleRandom"))
 	}
 	r.Floor("R3.rows", 20)
